@@ -40,15 +40,29 @@ def draw_read_channel(g, ascii_only=True, allow_cr=True, encodable=None):
     return cfg
 
 
-def read_via(fs, text, cfg, kw=None, lasio_mod=None, tag="r"):
+class _Into(object):
+    """Stands in for the lasio module: `read` re-uses an existing LASFile object (LASFile.read called again)."""
+
+    def __init__(self, las):
+        self.las = las
+
+    def read(self, src, **kw):
+        self.las.read(src, **kw)
+        return self.las
+
+
+def read_via(fs, text, cfg, kw=None, lasio_mod=None, tag="r", into=None):
     """Deliver `text` (with '\\n' line ends) to lasio.read through the configured channel."""
-    lasio = lasio_mod or __import__("lasio")
+    lasio = _Into(into) if into is not None else (lasio_mod or __import__("lasio"))
     kw = dict(kw or {})
     ch = cfg["channel"]
     nl = cfg.get("newline", "\n")
     if ch in FILE_CHANNELS:
-        _counter[0] += 1
-        path = "/simfs/%s/f%d.las" % (tag, _counter[0])
+        if cfg.get("path_slot") is not None:
+            path = "/simfs/%s/slot%d.las" % (tag, cfg["path_slot"])     # the same path is overwritten by later reads
+        else:
+            _counter[0] += 1
+            path = "/simfs/%s/f%d.las" % (tag, _counter[0])
         fs.store_text(path, text, codec=cfg["codec"], newline=nl)
         if ch == "stream":
             fh = fs.open_as_caller(path, "r", encoding=cfg["codec"], newline=None)
